@@ -473,7 +473,7 @@ class HolderSetInput(Contract):
 
 class SimSetInput(Contract):
     name = "openfisca_core.simulations.simulation.Simulation.set_input"
-    prop = ("C16",)
+    prop = ("C16", "C01")
     top_level = True
     cases = ("no-end", "before-end", "after-end")
     descr = "an input is handed to the variable's holder for the period it names, unless the period starts after the variable's end date"
